@@ -11,7 +11,7 @@ from harness import common
 from harness.translate import gen as G
 
 PROPERTY = "C19"
-LEAN_MODULES = ["SigpyVerif.Props.C19"]
+LEAN_MODULES = ["SigpyVerif.Props.C19", "SigpyVerif.Props.C19Slr"]
 THEOREMS = ["SigpyVerif.C19." + t for t in [
     "su2_step_norm", "hpStep_eq", "bsStep_eq", "ptxStep_eq", "ck_step_unitary", "hp_step_unitary", "bs_step_unitary",
     "ptx_step_unitary", "ptxOut_norm", "finalPhase_norm", "ck_params_valid", "hp_params_valid", "ptx_params_valid",
@@ -22,7 +22,7 @@ THEOREMS = ["SigpyVerif.C19." + t for t in [
     "blochsimFinal_eq", "peelS_def", "bs_sim_linear", "sim_compose_blochsim",
     "ckParams_valid", "ndParams_valid", "hpParams_valid", "bsParams_valid", "ptxParams_valid", "abrm_balanced_norm",
     "abrmSim_eq", "abrmNdSim_eq", "abrmHpSim_eq", "blochsimSim_eq", "abrmPtxSim_eq",
-    "gen_unitary_abrm", "gen_unitary_abrm_nd", "gen_unitary_abrm_hp", "gen_unitary_blochsim", "gen_unitary_abrm_ptx",
+    "gen_unitary_abrm", "gen_unitary_abrm_balanced", "gen_unitary_abrm_nd", "gen_unitary_abrm_hp", "gen_unitary_blochsim", "gen_unitary_abrm_ptx",
     "gen_zero_rf_abrm", "gen_zero_rf_abrm_nd", "gen_zero_rf_abrm_hp", "gen_zero_rf_blochsim", "gen_zero_rf_abrm_ptx",
     "gen_compose_abrm", "gen_compose_abrm_nd", "gen_compose_abrm_hp", "gen_compose_blochsim", "gen_compose_abrm_ptx",
     "zprod_hpParams", "zprod_bsParams", "hp_frame_exponents", "bs_frame_exponents", "exp_frame", "normSq_exp_of_re_zero",
@@ -31,6 +31,14 @@ THEOREMS = ["SigpyVerif.C19." + t for t in [
     "peel_def", "zipWith_zipWith_same", "zipWith_fst", "zipWith_snd", "peel_fwdStep", "fwdStep_last", "fwdRev_inv",
     "peelS_fwd", "ab2rf_inverts_forward", "ab2rf_cj_formula", "rot_of_real", "RotR.rot", "ab2rf_code_cj",
     "ab2rf_inverts_forward_code", "forall_mem_map",
+    # Props/C19Slr.lean: hard-pulse simulation = forward SLR recursion; ab2rf is its two-sided inverse
+    "peval_append_singleton", "peval_append_zero", "peval_zipWith_lin", "hpPolyStep_length", "hpPolyStep_inv",
+    "hpPolyStep_eval", "hpPoly_fold", "hpPoly_eval", "hpPoly_length", "bs_hp_shift", "blochsim_hpPoly_eval",
+    "hpPoly_setZ", "hpPoly_unit_circle", "zipWith_map_both", "toSlr_hpPolyStep", "hpPoly_snoc", "toSlr_hpPoly",
+    "HpPulseOk.rot", "slrRot_eq", "slrRot_RotR", "ab2rf_hp_roundtrip",
+    "eval_ofL", "coeff_zero_ofL", "peval_pc", "circle_infinite", "circle_id_poly", "hpPoly_paraconj_identity",
+    "circle_corner", "list_head_zero", "list_last_zero", "peel_inverts", "forward_ab2rf", "toSlr_toSlr",
+    "forward_ab2rf_sim", "ab2rf_sample_rf", "hpPoly_eval_code",
 ]]
 
 
@@ -85,7 +93,7 @@ def rand_inputs(rng, name, nt, zero_rf=False, zero_g=False):
     c = dict(sim=name, nt=nt)
     if name == "abrm":
         ns = rng.randint(1, 5)
-        c.update(rf=rf, x=r.normal(size=ns) * rng.choice([0.1, 3.0, 30.0]))
+        c.update(rf=rf, x=r.normal(size=ns) * rng.choice([0.1, 3.0, 30.0]), balanced=rng.random() < 0.3)
         if zero_g:
             c["x"] = np.zeros(ns)
     elif name in ("abrm_nd", "blochsim"):
@@ -128,7 +136,7 @@ def run_sim(c):
     with warnings.catch_warnings():
         warnings.simplefilter("ignore")
         if n == "abrm":
-            a, b = sim.abrm(c["rf"].copy(), c["x"].copy())
+            a, b = sim.abrm(c["rf"].copy(), c["x"].copy(), balanced=bool(c.get("balanced", False)))
         elif n == "abrm_nd":
             a, b = sim.abrm_nd(c["rf"].copy(), c["x"].copy(), c["g"].copy())
         elif n == "abrm_hp":
@@ -188,6 +196,11 @@ def params(c, j):
             nx, ny, nz = rf[mm].real / den, rf[mm].imag / den, om / den
             out += [np.cos(phi / 2), np.sin(phi / 2), nx, ny, nz]
         kind = n
+        if n == "abrm" and c.get("balanced"):      # the rewinder: a z-rotation by -pi * x
+            om = c["x"][j] * (-2 * np.pi / 2)
+            phi = abs(om) + EPS
+            out += [np.cos(phi / 2), np.sin(phi / 2), 0.0, 0.0, om / phi]
+            kind = "abrm_balanced"
     elif n in ("abrm_hp", "blochsim"):
         rf = c["rf"]
         acc = 0.0
@@ -289,7 +302,12 @@ def correspond(ctx):
                 "float from the documented physics, passed as exact dyadic rationals to the whole-simulation definition "
                 "the translator regenerated from the source (Gen.Sim.<simulator>Sim: parameter formulas, state update in "
                 "program order, final rephasing) and its exact result is compared with the real simulator's output at 1e-12; ab2rf: exact Gaussian-rational Cayley-Klein polynomial pairs from Pythagorean rotations, "
-                "the model's exact (cj, sj) per peel vs the real ab2rf at 1e-7; all cases distinct by protocol line")
+                "the model's exact (cj, sj) per peel vs the real ab2rf at 1e-7; hard-pulse polynomials: random hard-pulse trains (1..12 "
+                "samples, 70% with |rf| < pi), constant gradient, dyadic positions/off-resonance: the real abrm_hp / blochsim output at "
+                "each position vs zf*(A(z), B(z)) [blochsim zf*(A(z), z*B(z))] evaluated exactly by the model from the coefficient "
+                "lists hpPoly (proved = the generated simulation for every z) at the float phase factors z, zf passed as exact "
+                "dyadics (1e-12), exactly n coefficients each, and the real ab2rf on the model's pair in ab2rf's convention vs the "
+                "pulse (1e-6); all cases distinct by protocol line")
     rng = ctx.rng
     quick = ctx.tier == "quick"
     for name in SIMS:
@@ -307,6 +325,8 @@ def correspond(ctx):
         for (c, j, a, b), ln, rep in zip(meta, lines, reps):
             ctx.case(ln, sample=dict(line=ln[:150], reply=rep[:100]) if ctx.evaluations % 29 == 0 else None)
             ctx.count("sim:%s:nt=%s" % (name, "1" if c["nt"] == 1 else "2-5" if c["nt"] <= 5 else "6-14"))
+            if c.get("balanced"):
+                ctx.count("sim:abrm:balanced")
             if not rep.startswith("ok "):
                 bad += 1
                 ctx.disagree("sim-" + name, dict(sim=name, line=ln[:300]), (a, b), rep)
@@ -347,19 +367,123 @@ def correspond(ctx):
             bad += 1
             ctx.disagree("ab2rf", dict(a=[cs(z) for z in a], b=[cs(z) for z in b]), str(rf)[:300], str(want)[:300])
     ctx.oblige("correspondence:C19.ab2rf", "correspondence", bad == 0, "%d disagreements" % bad)
+    correspond_poly(ctx)
     ctx.notes.append("max |real - exact fold| over simulator cases: %.3g (tolerance %g)" % (getattr(ctx, "maxerr", 0.0), CTOL))
     ctx.assumptions += [
         "the per-sample rotation parameters (cos/sin/exp of float arguments, the +eps of abrm/abrm_nd) are computed in float; "
         "the theorems assume the constraints |av|^2+|bv|^2 = 1, C real with C^2+|S|^2 = 1, |z| = 1, which hold up to rounding",
         "numpy cos/sin/exp/sqrt/angle/matmul, sigpy.fft, scipy.signal firls/remez are trusted",
         "b2a/mag2mp (FFT-based minimum-phase factorisation) and dzrf's filter designs are numerical: oracle only",
-        "ab2rf_inverts_forward is proved on coefficient lists for pairs built by the forward SLR recursion (fwdRev, in Props); "
-        "that this recursion is what hard-pulse simulation computes (B(e^{iw}) of abrm_hp/blochsim) is the round-trip oracle's job",
+        "hard-pulse polynomial theorems (Props/C19Slr) hold for every complex z; that the code's z = exp(-1j*(x*g+dom0dt)) is the same "
+        "for all samples is the constant-gradient hypothesis (p.z = zeta for all samples); np.arctan2(y, x) is read as arg(x + iy), "
+        "np.angle as arg, np.sqrt/np.abs as the real square root / modulus (ab2rf_sample_rf, codeCj)",
     ]
     ctx.trusted += ["harness/translate/gen_c19.py (statement-by-statement extraction of the five simulators' time loops, "
                     "parameter formulas, final rephasing and phase exponents, and of ab2rf's sj / peel / slices; the float atoms "
                     "fed to the generated definitions are computed in harness/props/c19.py from the documented physics)"]
     ctx.traces = ctx.evaluations
+
+
+def hp_atoms(rf):
+    """per-sample atoms of a hard pulse, from the documented physics (z is a dummy: the polynomial does not read it)"""
+    out = []
+    for v in rf:
+        out += [np.cos(abs(v) / 2), np.sin(abs(v) / 2), np.exp(1j * np.angle(v)), 1.0]
+    return out
+
+
+def dyadic(rng, lo, hi, bits=6):
+    """a dyadic rational k / 2^bits in [lo, hi]"""
+    return rng.randint(int(lo * 2 ** bits), int(hi * 2 ** bits)) / 2.0 ** bits
+
+
+def parse_kv(rep):
+    out = {}
+    for t in rep.split()[1:]:
+        k, v = t.split("=", 1)
+        out[k] = [] if v == "-" else [parse_c(x) for x in v.split(",")]
+    return out
+
+
+def correspond_poly(ctx):
+    """the real abrm_hp / blochsim with a constant gradient at dyadic frequencies vs the model's polynomial pair
+    (`hpPoly`: proved in Props/C19Slr.lean to be what the generated simulation evaluates), and the real ab2rf on the
+    model's pair in ab2rf's convention (`toSlr`) vs the pulse."""
+    rng = ctx.rng
+    quick = ctx.tier == "quick"
+    sim, optcont, slr = mods()
+    for name in ("abrm_hp", "blochsim"):
+        lines, meta = [], []
+        for _ in range(60 if quick else 300):
+            n = rng.randint(1, 12)
+            r = np.random.default_rng(rng.randrange(2 ** 32))
+            small = rng.random() < 0.7        # |rf| < pi: ab2rf can recover the pulse
+            mag = r.uniform(0.02, fwdinv_maxflip(n), size=n) if small else r.uniform(0.02, 7.0, size=n)
+            if rng.random() < 0.15:
+                mag[rng.randrange(n)] = 0.0
+            rf = mag * np.exp(1j * r.uniform(-np.pi, np.pi, size=n))
+            if rng.random() < 0.2:
+                rf = (mag * r.choice([-1.0, 1.0], size=n)).astype(complex)
+            gval = rng.choice([1.0, 1.0, 0.5, 2.0, -1.0])                  # constant gradient, exact in float
+            d = 0.0 if (name == "blochsim" or rng.random() < 0.6) else dyadic(rng, -1, 1)
+            xs = np.array(sorted({dyadic(rng, -3, 3) for _ in range(rng.randint(1, 5))}))    # dyadic frequencies
+            with warnings.catch_warnings():
+                warnings.simplefilter("ignore")
+                if name == "abrm_hp":
+                    a, b = sim.abrm_hp(rf.copy(), np.full(n, gval), xs.copy(), d)
+                else:
+                    a, b = optcont.blochsim(rf.copy(), xs.copy(), np.full(n, gval))
+            # the phase factors as the code computes them (same float expressions), passed exactly
+            if name == "abrm_hp":
+                zs = np.exp(-1j * (xs * gval + d))
+                zf = np.exp(1j / 2 * (xs * np.sum(np.full(n, gval), axis=0) + n * d))
+            else:
+                zs = np.exp(-1j * xs * gval)
+                zf = np.exp(1j / 2 * xs * np.sum(np.full(n, gval)))
+            q = []
+            for z1, z2 in zip(zs, zf):
+                q += [z1, z2]
+            lines.append("C19 hppoly kind=%s p=%s q=%s" % (name, ",".join(cs(v) for v in hp_atoms(rf)), ",".join(cs(v) for v in q)))
+            meta.append((rf, gval, d, xs, np.asarray(a, dtype=complex), np.asarray(b, dtype=complex), small))
+        reps = ctx.driver(lines)
+        bad = 0
+        for (rf, gval, d, xs, a, b, small), ln, rep in zip(meta, lines, reps):
+            ctx.case(ln, sample=dict(line=ln[:150], reply=rep[:120]) if ctx.evaluations % 23 == 0 else None)
+            ctx.count("hppoly:%s:n=%s" % (name, "1" if len(rf) == 1 else "2-5" if len(rf) <= 5 else "6-12"))
+            inputs = dict(sim=name, nt=len(rf), rf=rf, g=np.full(len(rf), gval), x=xs, dom0dt=d)
+            if not rep.startswith("ok "):
+                bad += 1
+                ctx.disagree("hppoly-" + name, dict(sim=name, line=ln[:300], inputs=_ser(inputs)), "(a, b)", rep)
+                continue
+            kvs = parse_kv(rep)
+            ev = np.array(kvs["ev"])
+            if not (len(kvs["a"]) == len(rf) and len(kvs["b"]) == len(rf)):
+                bad += 1
+                ctx.disagree("hppoly-" + name, dict(sim=name, inputs=_ser(inputs)), "n coefficients", "%d, %d" % (len(kvs["a"]), len(kvs["b"])))
+                continue
+            err = max(float(np.max(np.abs(ev[0::2] - a))), float(np.max(np.abs(ev[1::2] - b))))
+            ctx.polyerr = max(getattr(ctx, "polyerr", 0.0), err)
+            if not err <= CTOL:
+                bad += 1
+                ctx.disagree("hppoly-" + name, dict(sim=name, inputs=_ser(inputs)), (a.tolist(), b.tolist()), ev.tolist())
+                continue
+            if small and name == "abrm_hp":
+                # real ab2rf on the model's pair (ab2rf's convention) must give back the pulse
+                try:
+                    with warnings.catch_warnings():
+                        warnings.simplefilter("ignore")
+                        back = slr.ab2rf(np.array(kvs["sa"]), np.array(kvs["sb"]))
+                    e2 = float(np.max(np.abs(back - rf)))
+                except Exception as e:  # noqa
+                    e2 = float("inf")
+                ctx.count("hppoly:ab2rf-back")
+                ctx.backerr = max(getattr(ctx, "backerr", 0.0), e2)
+                if not e2 <= 1e-6:
+                    bad += 1
+                    ctx.disagree("hppoly-ab2rf", dict(kind="fwdinv", rf_re=rf.real.tolist(), rf_im=rf.imag.tolist()), "rf", e2)
+        ctx.oblige("correspondence:C19.hppoly-" + name, "correspondence", bad == 0, "%d disagreements" % bad)
+    ctx.notes.append("hard-pulse polynomial: max |real sim - zf*(A(z), B(z))| %.3g (tolerance %g); real ab2rf on the model's "
+                     "pair vs the pulse: max %.3g (tolerance 1e-6)" % (getattr(ctx, "polyerr", 0.0), CTOL, getattr(ctx, "backerr", 0.0)))
 
 
 def _ser(c):
@@ -416,7 +540,7 @@ def oracle_sim(ctx, c, origin):
             ok = False
             ctx.fail("C19:%s:zero-pulse" % name, "zero RF and zero gradient must give the identity", case,
                      observed=float(np.max(np.abs(a - 1))), expected=0, origin=origin)
-    if c["nt"] >= 2:
+    if c["nt"] >= 2 and not c.get("balanced"):     # the rewinder of abrm(balanced=True) is not part of the waveform
         k = c.get("split") or max(1, c["nt"] // 3)
         c1, c2 = split(c, k)
         try:
@@ -497,6 +621,68 @@ def oracle_roundtrip(ctx, c, origin):
     return ok
 
 
+def fwdinv_maxflip(n):
+    """largest |rf| per sample for which the float backward recursion is well conditioned: its leading coefficient
+    is prod(cos(|rf|/2)); for long trains of near-pi pulses it underflows the rounding of the other coefficients
+    (numerics of the float recursion, not the algebra under test)"""
+    return 2.6 if n <= 6 else min(2.6, 9.0 / n)
+
+
+def oracle_fwdinv(ctx, c, origin):
+    """forward -> inverse on the REAL code only: simulate the hard-pulse train at 2n equispaced frequencies with unit
+    gradient, undo the final rephasing, inverse DFT = the coefficients of (A, B) in the code's z = exp(-i w)
+    (the upper n of the 2n must vanish: degree < n), write them as ab2rf's arrays and call ab2rf: the pulse must come back."""
+    sim, optcont, slr = mods()
+    rf = np.array(c["rf_re"]) + 1j * np.array(c["rf_im"])
+    n = len(rf)
+    N = 2 * n
+    w = 2 * np.pi * np.arange(N) / N
+    ok = True
+    with warnings.catch_warnings():
+        warnings.simplefilter("ignore")
+        for name in ("abrm_hp", "blochsim"):
+            try:
+                if name == "abrm_hp":
+                    a, b = sim.abrm_hp(rf.copy(), np.ones(n), w.copy())
+                else:
+                    a, b = optcont.blochsim(rf.copy(), w.copy(), np.ones(n))
+                    b = b * np.exp(1j * w)            # blochsim's beta carries one more gradient phase factor
+                zf = np.exp(1j / 2 * w * n)
+                al = np.fft.ifft(np.asarray(a, dtype=complex) / zf)
+                be = np.fft.ifft(np.asarray(b, dtype=complex) / zf)
+                hi = float(max(np.max(np.abs(al[n:])), np.max(np.abs(be[n:]))))
+                back = slr.ab2rf(np.conj(al[:n][::-1]), 1j * np.conj(be[:n][::-1]))
+                dev = float(np.max(np.abs(back - rf)))
+            except Exception as e:  # noqa
+                ctx.fail("C19:fwdinv:%s:raises" % name, "forward/inverse round trip raised %s" % type(e).__name__, c,
+                         observed=repr(e), expected="rf", origin=origin)
+                ok = False
+                continue
+            ctx.fimax = max(getattr(ctx, "fimax", 0.0), dev)
+            if not hi <= 1e-9:
+                ok = False
+                ctx.fail("C19:fwdinv:%s:degree" % name, "alpha/beta of an n-sample hard pulse are not polynomials of degree < n in exp(-i w)",
+                         c, observed=hi, expected="<= 1e-9", origin=origin)
+            if not dev <= 1e-6:
+                ok = False
+                ctx.fail("C19:fwdinv:%s" % name, "ab2rf of the simulated (A, B) polynomials does not give back the pulse", c,
+                         observed=dev, expected="<= 1e-6", origin=origin)
+    return ok
+
+
+def fwdinv_cases(rng, k):
+    out = []
+    for _ in range(k):
+        n = rng.randint(1, 16)
+        r = np.random.default_rng(rng.randrange(2 ** 32))
+        mag = r.uniform(0.0, fwdinv_maxflip(n), size=n)
+        rf = mag * np.exp(1j * r.uniform(-np.pi, np.pi, size=n))
+        if rng.random() < 0.25:
+            rf = (mag * r.choice([-1.0, 1.0], size=n)).astype(complex)
+        out.append(dict(kind="fwdinv", rf_re=rf.real.tolist(), rf_im=rf.imag.tolist()))
+    return out
+
+
 def rt_cases(rng, n_each):
     out = []
     for _ in range(n_each):
@@ -533,6 +719,14 @@ def search(ctx, budget):
         cc = d["case"]
         if "inputs" in cc:
             oracle_sim(ctx, _deser(cc["inputs"]), "disagreement")
+        elif cc.get("kind") == "fwdinv":
+            oracle_fwdinv(ctx, cc, "disagreement")
+    for c in fwdinv_cases(rng, int(60 * budget)):
+        ctx.case(("oracle-fwdinv", json.dumps(c, sort_keys=True)[:400]))
+        ctx.count("oracle:fwdinv")
+        oracle_fwdinv(ctx, c, "search")
+    ctx.notes.append("forward->inverse on the real code: max |ab2rf(polynomials of the simulation) - rf| = %.3g (tolerance 1e-6)"
+                     % getattr(ctx, "fimax", 0.0))
     n = int(80 * budget)
     for name in SIMS:
         for i in range(n):
@@ -562,6 +756,8 @@ def replay(path):
     cc = r["case"]
     if cc.get("kind") == "sim":
         ok = oracle_sim(ctx, _deser(cc["inputs"]), "replay")
+    elif cc.get("kind") == "fwdinv":
+        ok = oracle_fwdinv(ctx, cc, "replay")
     else:
         ok = oracle_roundtrip(ctx, cc, "replay")
     for f in ctx.failures:
